@@ -53,6 +53,17 @@ func forEachGrammar(w *Worker, classes []gram.Class, all bool, families bool, f 
 			idx++
 		}
 	}
+	if families {
+		for _, n := range gram.PermFamilies() {
+			if w.Mine(idx) {
+				c := &GCase{Origin: "family:" + n.Name, Spec: n.Spec}
+				w.Begin(idx, c)
+				w.Count("rule_order_permutations", 1)
+				f(idx, c)
+			}
+			idx++
+		}
+	}
 	for _, cl := range classes {
 		u := cl.Universe()
 		base := idx
